@@ -1,10 +1,11 @@
+\* as MC_quick with owner sequences 0..2: 997,731 distinct states, 113.6M generated, ~5 min with 8 workers
 SPECIFICATION Spec
 CONSTANTS
   Slots = {1}
   Auths = {1, 2}
   ProfileNames = {"P3"}
   Foreigns = {{}, {2}}
-  Seqs = {0, 1}
+  Seqs = {0, 1, 2}
   Seens = {0, 1}
   MaxTok = 2
   Nows = {0, 2, 3}
